@@ -4,7 +4,7 @@ cd /verif
 for f in /tmp/wt/confirm/*.json; do
   b=$(basename $f .json)
   ok=$(/venv/bin/python -c "import json,sys; r=json.load(open('$f')); print(1 if r.get('confirmed') else 0)" 2>/dev/null)
-  case "$b" in r2_*) tag=r2; src=/tmp/wt/out2; rest=${b#r2_};; r3_*) tag=r3; src=/tmp/wt/out3; rest=${b#r3_};; r4_*) tag=r4; src=/tmp/wt/out4; rest=${b#r4_};; r5_*) tag=r5; src=/tmp/wt/out5; rest=${b#r5_};; r6_*) tag=r6; src=/tmp/wt/out6; rest=${b#r6_};; *) tag=r1; src=/tmp/wt/out; rest=$b;; esac
+  case "$b" in r2_*) tag=r2; src=/tmp/wt/out2; rest=${b#r2_};; r3_*) tag=r3; src=/tmp/wt/out3; rest=${b#r3_};; r4_*) tag=r4; src=/tmp/wt/out4; rest=${b#r4_};; r5_*) tag=r5; src=/tmp/wt/out5; rest=${b#r5_};; r6_*) tag=r6; src=/tmp/wt/out6; rest=${b#r6_};; r7x_*) continue;; r7_*) tag=r7; src=/tmp/wt/out7; rest=${b#r7_};; *) tag=r1; src=/tmp/wt/out; rest=$b;; esac
   id=${rest%_*}; k=${rest##*_}
   if [ "$tag" = r1 ]; then name="$id-$k"; else name="$id-$tag-$k"; fi
   if [ "$id" = C05b ]; then name="C05-r3b-$k"; fi   # second C05 batch of round 3 (the first batch was discarded: its agent had read /verif)
